@@ -171,7 +171,20 @@ func clntLogCase(n int, kinds []byte, order []int, delivered int, end string, do
 	if end == "none" {
 		p.clnt.Unmount()
 	}
-	time.Sleep(300 * time.Microsecond)
+	// the receive goroutine logs its last labels (delivered, end) after the callers have already returned: wait
+	// until the log has been quiet for a moment (a label missing at the end made the replay fail under load)
+	quiet, last := 0, -1
+	for i := 0; i < 400 && quiet < 3; i++ {
+		time.Sleep(500 * time.Microsecond)
+		lg.mu.Lock()
+		n := len(lg.labels)
+		lg.mu.Unlock()
+		if n == last {
+			quiet++
+		} else {
+			quiet, last = 0, n
+		}
+	}
 	lg.mu.Lock()
 	defer lg.mu.Unlock()
 	if !lg.traced {
